@@ -3206,5 +3206,514 @@ theorem gained_parents_in (fx : Fixes) : ∀ (fuel : Nat) (t : Tree) (x : Nat) (
     | up hw hf hpar hv hrest =>
       exact in3 (ih _ _ _ _ _ _ pw2 (hrec _ _ hw hf hpar hv) (reaches_pv hs2.2 hrest) hpw2 hn2')
 
+
+/-! ### the loser is told, in full (repaired `_focus_gained`): either `b` is told OUT, or nothing on the focus chain moved -/
+
+/-- The focus chain of `t` is still there in `t'`: same links on every chain window, and `b` still focused if it was. -/
+def Kept (b : Nat) (t t' : Tree) : Prop :=
+  t'.wins.size = t.wins.size ∧
+  ∀ y w, OnChain t y → Live t y w →
+    ∃ w', Live t' y w' ∧ w'.focusedChild = w.focusedChild ∧ (y = b → w.isFocused = true → w'.isFocused = true)
+
+theorem kept_refl (b : Nat) (t : Tree) : Kept b t t := ⟨rfl, fun _ w _ hw => ⟨w, hw, rfl, fun _ h => h⟩⟩
+
+theorem onChain_kept {b : Nat} {t t' : Tree} (h : Kept b t t') {y : Nat} (ho : OnChain t y) : OnChain t' y := by
+  induction ho with
+  | root => exact .root
+  | @step p c w hop hw hfc ih =>
+    obtain ⟨w', hw', hfc', _⟩ := h.2 p w hop hw
+    exact .step ih hw' (hfc'.trans hfc)
+
+theorem kept_trans {b : Nat} {t1 t2 t3 : Tree} (h12 : Kept b t1 t2) (h23 : Kept b t2 t3) : Kept b t1 t3 := by
+  refine ⟨h23.1.trans h12.1, fun y w ho hw => ?_⟩
+  obtain ⟨w2, hw2, hfc2, hf2⟩ := h12.2 y w ho hw
+  obtain ⟨w3, hw3, hfc3, hf3⟩ := h23.2 y w2 (onChain_kept h12 ho) hw2
+  exact ⟨w3, hw3, hfc3.trans hfc2, fun hy hf => hf3 hy (hf2 hy hf)⟩
+
+theorem onChain_live {t : Tree} (h : wfB t = true) {y : Nat} (ho : OnChain t y) : ∃ w, Live t y w := by
+  cases ho with
+  | root => obtain ⟨r, hr, _, _⟩ := wf_root h; exact ⟨r, hr⟩
+  | step _ hw hfc => obtain ⟨cw, hcw, _, _⟩ := wf_focused h hw hfc; exact ⟨cw, hcw⟩
+
+theorem onChain_kept_rev {b : Nat} {t t' : Tree} (hwf : wfB t = true) (h : Kept b t t') {y : Nat}
+    (ho : OnChain t' y) : OnChain t y := by
+  induction ho with
+  | root => exact .root
+  | @step p c w' _ hw' hfc ih =>
+    obtain ⟨w, hw⟩ := onChain_live hwf ih
+    obtain ⟨w'', hw'', hfc'', _⟩ := h.2 p w ih hw
+    have := live_unique hw'' hw'; subst this
+    exact .step ih hw (hfc''.symm.trans hfc)
+
+theorem chainEnd_kept {b : Nat} {t t' : Tree} (hwf : wfB t = true) (h : Kept b t t') : ∀ (f y : Nat), OnChain t y →
+    chainEnd t' f y = chainEnd t f y := by
+  intro f
+  induction f with
+  | zero => intro y _; rfl
+  | succ f ih =>
+    intro y ho
+    obtain ⟨w, hw⟩ := onChain_live hwf ho
+    obtain ⟨w', hw', hfc', _⟩ := h.2 y w ho hw
+    cases hfc : w.focusedChild with
+    | none => rw [chainEnd_none hw hfc, chainEnd_none hw' (hfc'.trans hfc)]
+    | some c =>
+      rw [chainEnd_some hw hfc, chainEnd_some hw' (hfc'.trans hfc)]
+      exact ih c (.step ho hw hfc)
+
+theorem onChain_chainEnd {t : Tree} (hwf : wfB t = true) : ∀ (f y : Nat), OnChain t y → OnChain t (chainEnd t f y) := by
+  intro f
+  induction f with
+  | zero => intro y ho; exact ho
+  | succ f ih =>
+    intro y ho
+    obtain ⟨w, hw⟩ := onChain_live hwf ho
+    cases hfc : w.focusedChild with
+    | none => rw [chainEnd_none hw hfc]; exact ho
+    | some c => rw [chainEnd_some hw hfc]; exact ih c (.step ho hw hfc)
+
+/-- The holder of the focus (`Props.C15.holder`, restated here). -/
+def holderOf (t : Tree) : Option Nat :=
+  match t.wins[chainEnd t (treeFuel t) 0]? with
+  | some w => if w.isFocused then some (chainEnd t (treeFuel t) 0) else none
+  | none => none
+
+theorem holder_kept {b : Nat} {t t' : Tree} (hwf : wfB t = true) (h : Kept b t t')
+    (hb : chainEnd t (treeFuel t) 0 = b) (hfoc : ∃ bw, t.wins[b]? = some bw ∧ bw.isFocused = true) :
+    holderOf t' = some b := by
+  have hf : treeFuel t' = treeFuel t := by unfold treeFuel; rw [h.1]
+  have hob : OnChain t b := hb ▸ onChain_chainEnd hwf _ 0 .root
+  obtain ⟨bw0, hbw0⟩ := onChain_live hwf hob
+  obtain ⟨bw, hbw, hbf⟩ := hfoc
+  have := hbw0.1.symm.trans hbw; simp at this; subst this
+  obtain ⟨w', hw', _, hf'⟩ := h.2 b bw0 hob hbw0
+  unfold holderOf
+  rw [hf, chainEnd_kept hwf h _ 0 .root, hb, hw'.1]
+  simp [hf' rfl hbf]
+
+theorem kept_sameLK {b : Nat} {t t' : Tree} (h : SameLK t t')
+    (hf : (∃ bw, t.wins[b]? = some bw ∧ bw.isFocused = true) → ∃ bw, t'.wins[b]? = some bw ∧ bw.isFocused = true) :
+    Kept b t t' := by
+  refine ⟨h.2.2, fun y w _ hw => ?_⟩
+  obtain ⟨w', hw', hs⟩ := sameLK_live h hw
+  refine ⟨w', hw', by unfold lk at hs; simp at hs; exact hs.2.2.2.1, fun hy hfw => ?_⟩
+  subst hy
+  obtain ⟨bw, hbw, hbf⟩ := hf ⟨w, hw.1, hfw⟩
+  rw [hw'.1] at hbw; cases hbw; exact hbf
+
+theorem kept_set {b : Nat} {t : Tree} {x : Nat} {w w' : Win} (hw : Live t x w) (hf : w'.freed = false)
+    (hc : ¬ OnChain t x ∨ (w'.focusedChild = w.focusedChild ∧ (x = b → w.isFocused = true → w'.isFocused = true))) :
+    Kept b t (WinTree.set t x w') := by
+  refine ⟨by simp [WinTree.set], fun y wy ho hwy => ?_⟩
+  by_cases hxy : x = y
+  · subst hxy
+    have := live_unique hwy hw; subst this
+    rcases hc with hc | ⟨h1, h2⟩
+    · exact absurd ho hc
+    · exact ⟨w', ⟨by rw [set_lookup hw.1]; simp, hf⟩, h1, h2⟩
+  · exact ⟨wy, ⟨by rw [set_lookup hw.1]; simp [hxy]; exact hwy.1, hwy.2⟩, rfl, fun _ h => h⟩
+
+theorem kept_wins {b : Nat} {t t' : Tree} (h : t'.wins = t.wins) : Kept b t t' := by
+  refine ⟨by rw [h], fun y w _ hw => ⟨w, ⟨by rw [h]; exact hw.1, hw.2⟩, rfl, fun _ hf => hf⟩⟩
+
+
+/-- The repaired `_focus_gained`: the old holder `b` is told OUT, or the focus chain (and `b`'s flag) is untouched. -/
+theorem gained_tells_or_keeps (fx : Fixes) (hfx : fx.focusEvents = true) : ∀ (fuel : Nat) (t : Tree) (x : Nat)
+    (child : Option Nat) (r : Tree × List Event) (b : Nat),
+    focusGained fx fuel t x child = .ok r → wfB t = true →
+    chainEnd t (treeFuel t) 0 = b → (∃ bw, t.wins[b]? = some bw ∧ bw.isFocused = true) →
+    (⟨b, .focusOut, b⟩ : Event) ∈ r.2 ∨ Kept b t r.1 := by
+  intro fuel
+  induction fuel with
+  | zero => intro t x child r b h; simp [focusGained] at h
+  | succ n ih =>
+    intro t x child r b h hwf hb hfoc
+    simp only [focusGained, bind_ok] at h
+    obtain ⟨r1, h1, r2, h2, r3, h3, h4⟩ := h
+    obtain ⟨x4, hx4, _, _⟩ := gainSelfIn_events h4
+    obtain ⟨x2, hx2, _⟩ := gainSelfOut_events h2
+    have in2 : (⟨b, .focusOut, b⟩ : Event) ∈ r2.2 → (⟨b, .focusOut, b⟩ : Event) ∈ r.2 := by
+      intro hm; rw [hx4]
+      exact List.mem_append.mpr (.inl (List.mem_append.mpr (.inl hm)))
+    have in1 : (⟨b, .focusOut, b⟩ : Event) ∈ r1.2 → (⟨b, .focusOut, b⟩ : Event) ∈ r.2 := by
+      intro hm; apply in2; rw [hx2]; exact List.mem_append.mpr (.inl hm)
+    have in3 : (⟨b, .focusOut, b⟩ : Event) ∈ r3.2 → (⟨b, .focusOut, b⟩ : Event) ∈ r.2 := by
+      intro hm; rw [hx4]
+      exact List.mem_append.mpr (.inl (List.mem_append.mpr (.inr hm)))
+    have hxw : ∃ w, Live t x w := by
+      have h1' := h1
+      simp only [gainLoseOld, bind_ok] at h1'
+      obtain ⟨w, hg, _⟩ := h1'
+      exact ⟨w, get_ok.mp hg⟩
+    obtain ⟨w, hw⟩ := hxw
+    obtain ⟨bw, hbw, hbf⟩ := hfoc
+    obtain ⟨s1, t1⟩ := gainLoseOld_track (b := b) h1 (.inl ⟨bw, hbw, hbf⟩)
+    obtain ⟨s2, t2⟩ := gainSelfOut_track (b := b) h2 t1
+    have s12 := sameLK_trans s1 s2
+    -- the part common to the cases in which this level need not tell `b` itself
+    have generic : (Kept b t r3.1 → ∀ w4, Live r3.1 x w4 → (¬ OnChain r3.1 x ∨ child = w4.focusedChild)) →
+        ((⟨b, .focusOut, b⟩ : Event) ∈ r.2 ∨ Kept b t r.1) := by
+      intro hfinal
+      rcases t2 with hfoc2 | hmem
+      · have K12 : Kept b t r2.1 := kept_sameLK s12 (fun _ => hfoc2)
+        have hwf2 := gainSelfOut_wf (gainLoseOld_wf hwf h1) h2
+        have hsz : treeFuel r2.1 = treeFuel t := by unfold treeFuel; rw [s12.2.2]
+        have C3 : (⟨b, .focusOut, b⟩ : Event) ∈ r3.2 ∨ Kept b r2.1 r3.1 := by
+          simp only [gainClimb, bind_ok] at h3
+          obtain ⟨w3, hg3, h3⟩ := h3
+          split at h3
+          · next p hp =>
+            split at h3
+            · exact ih r2.1 p (some x) r3 b h3 hwf2 (by rw [hsz, chainEnd_lk s12]; exact hb) hfoc2
+            · simp only [pure_ok] at h3; subst h3; exact .inr (kept_refl _ _)
+          · simp only [bind_ok, pure_ok] at h3
+            obtain ⟨t', ht', h3⟩ := h3
+            subst h3
+            unfold requestRestoreOf at ht'
+            simp only [bind_ok, pure_ok] at ht'
+            obtain ⟨_, _, ht'⟩ := ht'
+            subst ht'
+            exact .inr (kept_wins rfl)
+        rcases C3 with hm | K23
+        · exact .inl (in3 hm)
+        · have K13 := kept_trans K12 K23
+          right
+          simp only [gainSelfIn, bind_ok] at h4
+          obtain ⟨w4, hg4, h4⟩ := h4
+          have hw4 := get_ok.mp hg4
+          have hcond := hfinal K13 w4 hw4
+          split at h4
+          · simp only [pure_ok] at h4; subst h4
+            refine kept_trans K13 (kept_set hw4 hw4.2 ?_)
+            rcases hcond with hc | hc
+            · exact .inl hc
+            · exact .inr ⟨hc, fun _ _ => rfl⟩
+          · next c =>
+            simp only [pure_ok] at h4; subst h4
+            refine kept_trans K13 (kept_set hw4 hw4.2 ?_)
+            rcases hcond with hc | hc
+            · exact .inl hc
+            · exact .inr ⟨hc, fun _ hf => hf⟩
+      · exact .inl (in2 hmem)
+    by_cases hon : OnChain t x
+    · have hend : chainEnd t (treeFuel t) x = b :=
+        (onChain_end hwf hon _ w hw (by unfold treeFuel; omega)).trans hb
+      -- in the kept store the record of `x` has the links it had
+      have hfc4 : Kept b t r3.1 → ∀ w4, Live r3.1 x w4 → w4.focusedChild = w.focusedChild := by
+        intro K w4 hw4
+        obtain ⟨w', hw', hfc', _⟩ := K.2 x w hon hw
+        rw [live_unique hw4 hw']; exact hfc'
+      cases hfc : w.focusedChild with
+      | none =>
+        have hxb : x = b := by unfold treeFuel at hend; rw [chainEnd_none hw hfc] at hend; exact hend
+        cases child with
+        | none =>
+          exact generic (fun K w4 hw4 => .inr ((hfc4 K w4 hw4).trans hfc).symm)
+        | some c =>
+          left
+          simp only [gainLoseOld, bind_ok] at h1
+          obtain ⟨w1, hg1, h1⟩ := h1
+          have := live_unique (get_ok.mp hg1) hw; subst this
+          simp only [hfc, pure_ok] at h1
+          subst h1
+          simp only [gainSelfOut, bind_ok] at h2
+          obtain ⟨w2, hg2, h2⟩ := h2
+          have := live_unique (get_ok.mp hg2) hw; subst this
+          have hwf' : w2.isFocused = true := by
+            subst hxb; rw [hw.1] at hbw; cases hbw; exact hbf
+          simp only [hfx, hwf', Option.isSome_some, Bool.and_self, if_true, pure_ok] at h2
+          apply in2; rw [← h2]; simp [hxb]
+      | some f =>
+        by_cases hcf : child = some f
+        · exact generic (fun K w4 hw4 => .inr (hcf.trans ((hfc4 K w4 hw4).trans hfc).symm))
+        · left
+          obtain ⟨fw, hfw, hfp, _⟩ := wf_focused hwf hw hfc
+          have hflt := (wf_parent hwf hfw hfp).1
+          have hcond : ((child.isSome || fx.focusEvents) && decide (some f ≠ child)) = true := by
+            have : some f ≠ child := fun h => hcf h.symm
+            simp [hfx, this]
+          simp only [gainLoseOld, bind_ok] at h1
+          obtain ⟨w1, hg1, h1⟩ := h1
+          have := live_unique (get_ok.mp hg1) hw; subst this
+          simp only [hfc] at h1
+          rw [if_pos hcond] at h1
+          simp only [bind_ok, pure_ok] at h1
+          obtain ⟨r0, h0', w', _, h1⟩ := h1
+          have hendf : chainEnd t (treeFuel t) f = b := by
+            have := hend
+            unfold treeFuel at this
+            rw [chainEnd_some hw hfc] at this
+            rw [← this]
+            exact chainEnd_fuel hwf _ _ f fw hfw (by unfold treeFuel; omega) (by omega)
+          have := focusLost_emits _ _ _ _ bw r0 h0' hendf hbw hbf
+          apply in1; rw [← h1]
+          exact List.mem_append.mpr (.inl this)
+    · exact generic (fun K _ _ => .inl (fun ho => hon (onChain_kept_rev hwf K ho)))
+
+
+
+/-! ### the window whose `focused_child` link moves is told about both (repaired `_focus_gained`) -/
+
+theorem focusLostSelf_lk {t : Tree} {win : Nat} {evs : List Event} {r : Tree × List Event}
+    (h : focusLostSelf t win evs = .ok r) : SameLK t r.1 := by
+  simp only [focusLostSelf, bind_ok] at h
+  obtain ⟨w, hg, h⟩ := h
+  split at h
+  · simp only [pure_ok] at h; subst h; exact sameLK_set (get_ok.mp hg).1 rfl
+  · simp only [pure_ok] at h; subst h; exact sameLK_refl _
+
+theorem focusLost_lk : ∀ (fuel : Nat) (t : Tree) (win : Nat) (r : Tree × List Event),
+    focusLost fuel t win = .ok r → SameLK t r.1 := by
+  intro fuel
+  induction fuel with
+  | zero => intro t win r h; simp [focusLost] at h
+  | succ n ih =>
+    intro t win r h
+    simp only [focusLost, bind_ok] at h
+    obtain ⟨r1, h1, h2⟩ := h
+    have hs1 : SameLK t r1.1 := by
+      simp only [focusLostChild, bind_ok] at h1
+      obtain ⟨w, _, h1⟩ := h1
+      split at h1
+      · simp only [pure_ok] at h1; subst h1; exact sameLK_refl _
+      · simp only [bind_ok, pure_ok] at h1
+        obtain ⟨r0, h0, w', _, h1⟩ := h1
+        subst h1
+        exact ih _ _ r0 h0
+    exact sameLK_trans hs1 (focusLostSelf_lk h2)
+
+theorem gainLoseOld_lk {fx : Fixes} {t : Tree} {win : Nat} {child : Option Nat} {r : Tree × List Event}
+    (h : gainLoseOld fx t win child = .ok r) : SameLK t r.1 := by
+  simp only [gainLoseOld, bind_ok] at h
+  obtain ⟨w, _, h⟩ := h
+  split at h
+  · simp only [pure_ok] at h; subst h; exact sameLK_refl _
+  · split at h
+    · simp only [bind_ok, pure_ok] at h
+      obtain ⟨r0, h0, w', _, h⟩ := h
+      subst h
+      exact focusLost_lk _ _ _ r0 h0
+    · simp only [pure_ok] at h; subst h; exact sameLK_refl _
+
+theorem gainSelfOut_lk {fx : Fixes} {t : Tree} {win : Nat} {child : Option Nat} {evs : List Event}
+    {r : Tree × List Event} (h : gainSelfOut fx t win child evs = .ok r) : SameLK t r.1 := by
+  simp only [gainSelfOut, bind_ok] at h
+  obtain ⟨w, hg, h⟩ := h
+  split at h
+  · simp only [pure_ok] at h; subst h; exact sameLK_set (get_ok.mp hg).1 rfl
+  · simp only [pure_ok] at h; subst h; exact sameLK_refl _
+
+
+theorem lookup_nf {t t' : Tree} (h : ∀ i : Nat, (t'.wins[i]?).map nf = (t.wins[i]?).map nf) {p : Nat} {pw pw' : Win}
+    (h1 : t.wins[p]? = some pw) (h2 : t'.wins[p]? = some pw') : pw'.focusChildNotify = pw.focusChildNotify := by
+  have := h p
+  rw [h1, h2] at this
+  simpa [nf] using this
+
+theorem gained_link_told (fx : Fixes) (hfx : fx.focusEvents = true) : ∀ (fuel : Nat) (t : Tree) (x : Nat)
+    (child : Option Nat) (r : Tree × List Event) (p c c' : Nat) (pw pw' : Win),
+    focusGained fx fuel t x child = .ok r → t.wins[p]? = some pw → r.1.wins[p]? = some pw' →
+    pw.focusChildNotify = true → pw.focusedChild = some c → pw'.focusedChild = some c' → c ≠ c' →
+    (⟨p, .focusOut, c⟩ : Event) ∈ r.2 ∧ (⟨p, .focusIn, c'⟩ : Event) ∈ r.2 := by
+  intro fuel
+  induction fuel with
+  | zero => intro t x child r p c c' pw pw' h; simp [focusGained] at h
+  | succ n ih =>
+    intro t x child r p c c' pw pw' h hpw hpw' hn hfc hfc' hne
+    have hall := h
+    simp only [focusGained, bind_ok] at h
+    obtain ⟨r1, h1, r2, h2, r3, h3, h4⟩ := h
+    obtain ⟨x4, hx4, _, _⟩ := gainSelfIn_events h4
+    obtain ⟨x2, hx2, _⟩ := gainSelfOut_events h2
+    have in1 : ∀ e : Event, e ∈ r1.2 → e ∈ r.2 := by
+      intro e hm; rw [hx4, hx2]
+      exact List.mem_append.mpr (.inl (List.mem_append.mpr (.inl (List.mem_append.mpr (.inl hm)))))
+    have in3 : ∀ e : Event, e ∈ r3.2 → e ∈ r.2 := by
+      intro e hm; rw [hx4]
+      exact List.mem_append.mpr (.inl (List.mem_append.mpr (.inr hm)))
+    have s12 : SameLK t r2.1 := sameLK_trans (gainLoseOld_lk h1) (gainSelfOut_lk h2)
+    have n12 : SameNF t r2.1 := sameNF_trans (gainLoseOld_nf h1) (gainSelfOut_nf h2)
+    -- the record of `p` before the climb
+    obtain ⟨pw2, hpw2, hs2⟩ := sameLK_lookup s12 hpw
+    have hfc2 : pw2.focusedChild = some c := by unfold lk at hs2; simp at hs2; exact hs2.2.2.2.1.trans hfc
+    have hn2 : pw2.focusChildNotify = true := (lookup_nf n12.2 hpw hpw2).trans hn
+    by_cases hpx : p = x
+    · subst hpx
+      -- this level: the final record carries `child`
+      have hchild : child = some c' := by
+        simp only [gainSelfIn, bind_ok] at h4
+        obtain ⟨w4, hg4, h4⟩ := h4
+        have hw4 := (get_ok.mp hg4).1
+        split at h4
+        · simp only [pure_ok] at h4; subst h4
+          rw [set_lookup hw4] at hpw'; simp at hpw'; subst hpw'; simp at hfc'
+        · next c0 =>
+          simp only [pure_ok] at h4; subst h4
+          rw [set_lookup hw4] at hpw'; simp at hpw'; subst hpw'; simp at hfc'; rw [hfc']
+      subst hchild
+      constructor
+      · -- OUT for the old child, from the first block
+        apply in1
+        simp only [gainLoseOld, bind_ok] at h1
+        obtain ⟨w1, hg1, h1⟩ := h1
+        have := (get_ok.mp hg1).1; rw [hpw] at this; cases this
+        simp only [hfc] at h1
+        have hcond : (((some c').isSome || fx.focusEvents) && decide (some c ≠ some c')) = true := by
+          simp [hne]
+        rw [if_pos hcond] at h1
+        simp only [bind_ok, pure_ok] at h1
+        obtain ⟨r0, h0, w', hg', h1⟩ := h1
+        have hnw' : w'.focusChildNotify = true :=
+          (lookup_nf (focusLost_nf _ _ _ r0 h0).2 hpw (get_ok.mp hg').1).trans hn
+        rw [← h1]; simp [hfx, hnw']
+      · exact gained_level_in fx hall hpw hn
+    · -- another level: the link of `p` can only have been moved by the climb above
+      have hfinal : r.1.wins[p]? = r3.1.wins[p]? := by
+        simp only [gainSelfIn, bind_ok] at h4
+        obtain ⟨w4, hg4, h4⟩ := h4
+        have hw4 := (get_ok.mp hg4).1
+        split at h4
+        · simp only [pure_ok] at h4; subst h4
+          rw [set_lookup hw4, if_neg (fun h => hpx h.symm)]
+        · simp only [pure_ok] at h4; subst h4
+          rw [set_lookup hw4, if_neg (fun h => hpx h.symm)]
+      rw [hfinal] at hpw'
+      simp only [gainClimb, bind_ok] at h3
+      obtain ⟨w3, hg3, h3⟩ := h3
+      split at h3
+      · split at h3
+        · obtain ⟨a, b⟩ := ih _ _ _ _ p c c' pw2 pw' h3 hpw2 hpw' hn2 hfc2 hfc' hne
+          exact ⟨in3 _ a, in3 _ b⟩
+        · simp only [pure_ok] at h3; subst h3
+          rw [hpw2] at hpw'; cases hpw'
+          rw [hfc2] at hfc'; cases hfc'; exact absurd rfl hne
+      · simp only [bind_ok, pure_ok] at h3
+        obtain ⟨t', ht', h3⟩ := h3
+        subst h3
+        unfold requestRestoreOf at ht'
+        simp only [bind_ok, pure_ok] at ht'
+        obtain ⟨_, _, ht'⟩ := ht'
+        subst ht'
+        have : (requestRestore r2.1).wins[p]? = r2.1.wins[p]? := rfl
+        rw [this, hpw2] at hpw'; cases hpw'
+        rw [hfc2] at hfc'; cases hfc'; exact absurd rfl hne
+
+
+/-! ### the branch that loses the focus: every window on it that asked is told OUT -/
+
+/-- `FcChain t f q`: `q` is `f` or below it along `focused_child` links. -/
+inductive FcChain (t : Tree) : Nat → Nat → Prop where
+  | here (f : Nat) : FcChain t f f
+  | down {f g q : Nat} {w : Win} : Live t f w → w.focusedChild = some g → FcChain t g q → FcChain t f q
+
+theorem fcChain_lk {t t' : Tree} (h : SameLK t t') {f q : Nat} (hc : FcChain t f q) : FcChain t' f q := by
+  induction hc with
+  | here => exact .here _
+  | @down f g q w hw hfc _ ih =>
+    obtain ⟨w', hw', hs⟩ := sameLK_live h hw
+    have : w'.focusedChild = w.focusedChild := by unfold lk at hs; simp at hs; exact hs.2.2.2.1
+    exact .down hw' (this.trans hfc) ih
+
+/-- `_focus_lost(f)` tells every window on the chain below `f` that asked for child notifications OUT for its
+    focused child. -/
+theorem focusLost_notifies : ∀ (fuel : Nat) (t : Tree) (f q d : Nat) (qw : Win) (r : Tree × List Event),
+    focusLost fuel t f = .ok r → FcChain t f q → Live t q qw → qw.focusedChild = some d →
+    qw.focusChildNotify = true → (⟨q, .focusOut, d⟩ : Event) ∈ r.2 := by
+  intro fuel
+  induction fuel with
+  | zero => intro t f q d qw r h; simp [focusLost] at h
+  | succ n ih =>
+    intro t f q d qw r h hc hq hfc hn
+    simp only [focusLost, bind_ok] at h
+    obtain ⟨r1, h1, h2⟩ := h
+    obtain ⟨x', hx', _⟩ := focusLostSelf_events h2
+    have in1 : (⟨q, .focusOut, d⟩ : Event) ∈ r1.2 → (⟨q, .focusOut, d⟩ : Event) ∈ r.2 := by
+      intro hm; rw [hx']; exact List.mem_append.mpr (.inl hm)
+    apply in1
+    simp only [focusLostChild, bind_ok] at h1
+    obtain ⟨w, hg, h1⟩ := h1
+    have hw := get_ok.mp hg
+    cases hc with
+    | here =>
+      have := live_unique hw hq; subst this
+      simp only [hfc, bind_ok, pure_ok] at h1
+      obtain ⟨r0, h0, w', hg', h1⟩ := h1
+      have hnw' : w'.focusChildNotify = true :=
+        (lookup_nf (focusLost_nf _ _ _ r0 h0).2 hw.1 (get_ok.mp hg').1).trans hn
+      rw [← h1]; simp [hnw']
+    | down hw' hfc' hrest =>
+      have := live_unique hw hw'; subst this
+      simp only [hfc', bind_ok, pure_ok] at h1
+      obtain ⟨r0, h0, w'', _, h1⟩ := h1
+      rw [← h1]
+      exact List.mem_append.mpr (.inl (ih _ _ _ _ qw r0 h0 hrest hq hfc hn))
+
+/-- One level of `_focus_gained` at which the old branch `f` is dropped: the windows on it that asked are told. -/
+theorem gained_level_branch_out (fx : Fixes) {fuel : Nat} {t : Tree} {x f q d : Nat} {child : Option Nat} {w qw : Win}
+    {r : Tree × List Event} (h : focusGained fx fuel t x child = .ok r) (hw : Live t x w)
+    (hfc : w.focusedChild = some f) (hcond : ((child.isSome || fx.focusEvents) && decide (some f ≠ child)) = true)
+    (hc : FcChain t f q) (hq : Live t q qw) (hqfc : qw.focusedChild = some d) (hn : qw.focusChildNotify = true) :
+    (⟨q, .focusOut, d⟩ : Event) ∈ r.2 := by
+  cases fuel with
+  | zero => simp [focusGained] at h
+  | succ n =>
+    simp only [focusGained, bind_ok] at h
+    obtain ⟨r1, h1, r2, h2, r3, h3, h4⟩ := h
+    obtain ⟨x4, hx4, _, _⟩ := gainSelfIn_events h4
+    obtain ⟨x2, hx2, _⟩ := gainSelfOut_events h2
+    rw [hx4, hx2]
+    refine List.mem_append.mpr (.inl (List.mem_append.mpr (.inl (List.mem_append.mpr (.inl ?_)))))
+    simp only [gainLoseOld, bind_ok] at h1
+    obtain ⟨w1, hg1, h1⟩ := h1
+    have := live_unique (get_ok.mp hg1) hw; subst this
+    simp only [hfc] at h1
+    rw [if_pos hcond] at h1
+    simp only [bind_ok, pure_ok] at h1
+    obtain ⟨r0, h0, w', _, h1⟩ := h1
+    rw [← h1]
+    exact List.mem_append.mpr (.inl (focusLost_notifies _ _ _ _ _ qw r0 h0 hc hq hqfc hn))
+
+/-- The same at any level the climb reaches. -/
+theorem gained_reach_branch_out (fx : Fixes) : ∀ (fuel : Nat) (t : Tree) (x : Nat) (child : Option Nat)
+    (r : Tree × List Event) (p c f q d : Nat) (pw qw : Win), focusGained fx fuel t x child = .ok r →
+    Reaches t x p c → Live t p pw → pw.focusedChild = some f → f ≠ c → FcChain t f q → Live t q qw →
+    qw.focusedChild = some d → qw.focusChildNotify = true → (⟨q, .focusOut, d⟩ : Event) ∈ r.2 := by
+  intro fuel
+  induction fuel with
+  | zero => intro t x child r p c f q d pw qw h; simp [focusGained] at h
+  | succ n ih =>
+    intro t x child r p c f q d pw qw h hre hp hpfc hfc hc hq hqfc hn
+    simp only [focusGained, bind_ok] at h
+    obtain ⟨r1, h1, r2, h2, r3, h3, h4⟩ := h
+    obtain ⟨x4, hx4, _, _⟩ := gainSelfIn_events h4
+    have in3 : (⟨q, .focusOut, d⟩ : Event) ∈ r3.2 → (⟨q, .focusOut, d⟩ : Event) ∈ r.2 := by
+      intro hm; rw [hx4]
+      exact List.mem_append.mpr (.inl (List.mem_append.mpr (.inr hm)))
+    have s12 : SameLK t r2.1 := sameLK_trans (gainLoseOld_lk h1) (gainSelfOut_lk h2)
+    have n12 : SameNF t r2.1 := sameNF_trans (gainLoseOld_nf h1) (gainSelfOut_nf h2)
+    obtain ⟨pw2, hp2, hsp⟩ := sameLK_live s12 hp
+    obtain ⟨qw2, hq2, hsq⟩ := sameLK_live s12 hq
+    have hpfc2 : pw2.focusedChild = some f := by unfold lk at hsp; simp at hsp; exact hsp.2.2.2.1.trans hpfc
+    have hqfc2 : qw2.focusedChild = some d := by unfold lk at hsq; simp at hsq; exact hsq.2.2.2.1.trans hqfc
+    have hn2 : qw2.focusChildNotify = true := (lookup_nf n12.2 hq.1 hq2.1).trans hn
+    have hrec : ∀ y (w : Win), t.wins[x]? = some w → w.freed = false → w.parent = some y → w.isVisible = true →
+        focusGained fx n r2.1 y (some x) = .ok r3 := by
+      intro y w hw hf hpar hv
+      simp only [gainClimb, bind_ok] at h3
+      obtain ⟨w3, hg3, h3⟩ := h3
+      have := (sameLK_pv s12).2 x
+      rw [hw, (get_ok.mp hg3).1] at this
+      simp [pv] at this
+      simp only [this.1.trans hpar, this.2.1.trans hv, if_true] at h3
+      exact h3
+    cases hre with
+    | here hw hf hpar hv =>
+      apply in3
+      refine gained_level_branch_out fx (hrec _ _ hw hf hpar hv) hp2 hpfc2 ?_ (fcChain_lk s12 hc) hq2 hqfc2 hn2
+      have : some f ≠ some x := fun h => hfc (by cases h; rfl)
+      simp [this]
+    | up hw hf hpar hv hrest =>
+      exact in3 (ih _ _ _ _ _ _ f q d pw2 qw2 (hrec _ _ hw hf hpar hv) (reaches_pv (sameLK_pv s12).2 hrest)
+        hp2 hpfc2 hfc (fcChain_lk s12 hc) hq2 hqfc2 hn2)
+
 end WinFocus
 end Tickit
